@@ -156,7 +156,16 @@ func HarnessC10_inline() {
 // HarnessC10_cross: cross-document references ($match/$path map form and
 // [pattern, path...] list form) in a stream of two or three documents.
 func HarnessC10_cross() {
-	T := ndTree(1, keysAB, 1, ndScalarNN)
+	// variant 0: targets before the host, plain; 1: the target documents
+	// carry a root-level reference of their own; 2: additionally the host
+	// comes first (forward reference). Variants 1-2 use a flat target.
+	variant := ndChoice(3)
+	var T any
+	if variant == 0 {
+		T = ndTree(1, keysAB, 1, ndScalarNN)
+	} else {
+		T = map[string]any{"a": ndScalarNN()}
+	}
 	local := c10Local()
 	ids := []any{1, 2, 3}
 	ndocs := 2 + ndChoice(2)
@@ -164,6 +173,8 @@ func HarnessC10_cross() {
 	want := ids[ndChoice(3)]
 	others := []any{}
 	matches := 0
+	ownMerge := variant >= 1
+	hostFirst := variant == 2
 	for i := 0; i < ndocs-1; i++ {
 		id := ids[ndChoice(3)]
 		if id == want {
@@ -171,7 +182,14 @@ func HarnessC10_cross() {
 		}
 		// the target sits two levels down; a literal key "t.u" next to it
 		// must not be mistaken for the dotted path
-		others = append(others, map[string]any{"id": id, "t": map[string]any{"u": vCopy(T)}, "t.u": "decoy"})
+		o := map[string]any{"id": id, "t": map[string]any{"u": vCopy(T)}, "t.u": "decoy"}
+		if ownMerge {
+			// the document has a reference of its own at its root, next to
+			// its keys (it still matches patterns on those keys)
+			o["$merge"] = "x"
+			o["x"] = map[string]any{"e": 1}
+		}
+		others = append(others, o)
 	}
 	var host any
 	form := ndChoice(4)
@@ -195,6 +213,10 @@ func HarnessC10_cross() {
 		host = map[string]any{"$replace": []any{map[string]any{"id": want}, "t", "u"}}
 	}
 	refDocs := append(vCopy(others).([]any), map[string]any{"h": host})
+	if hostFirst {
+		// a forward reference: the host comes before the documents it refers to
+		refDocs = append([]any{map[string]any{"h": host}}, vCopy(others).([]any)...)
+	}
 	for i := range refDocs {
 		vObserve("ref"+string(rune('0'+i)), refDocs[i])
 	}
@@ -218,6 +240,9 @@ func HarnessC10_cross() {
 		inlined = vCopy(T)
 	}
 	twinDocs := append(vCopy(others).([]any), map[string]any{"h": inlined})
+	if hostFirst {
+		twinDocs = append([]any{map[string]any{"h": inlined}}, vCopy(others).([]any)...)
+	}
 	c10Compare(refDocs, twinDocs, twinFails)
 }
 
